@@ -2,6 +2,7 @@
    Directives used: those of ExtrOcamlBasic only (bool, option, unit, prod, list, sumbool, sumor
    as OCaml types; andb/orb/negb/fst/snd inlined).  nat, N, Z, positive stay inductive. *)
 From Coq Require Import ExtrOcamlBasic.
-From Fences Require Import Base Graph.
+From Fences Require Import Base Graph GraphCheck.
 Extraction Language OCaml.
-Extraction "model.ml" build items generate_paths execute exec V_pinned V_fixed aempty.
+Extraction "model.ml" build items generate_paths execute exec V_pinned V_fixed aempty
+  wfb productiveb acyclicb.
